@@ -42,6 +42,8 @@ type AV struct {
 	Keys []string
 	Vals []*AV
 	Nil  bool // AVObj at top level: a nil map
+	Strs []string // AVOther: when set, the value is this []string (or []interface{} of these strings when Tag is 8): a
+	// multi-valued attribute made from the elements of a list literal (for the model still "other")
 }
 
 func hx(s string) string {
@@ -248,7 +250,7 @@ type someStruct struct {
 	b string
 }
 
-var otherNames = []string{"[]int", "struct", "chan", "func", "typed-nil-ptr", "named-map", "uint8", "float32", "[]interface{}", "map[string]int", "uint64", "nil-slice", "ptr-to-map", "complex128", "int16", "uint", "map[string]string", "[]interface{} of 20", "named-bool", "[]string of 12", "named-string", "named-int"}
+var otherNames = []string{"[]int", "struct", "chan", "func", "typed-nil-ptr", "named-map", "uint8", "float32", "[]interface{}", "map[string]int", "uint64", "nil-slice", "ptr-to-map", "complex128", "int16", "uint", "map[string]string", "[]interface{} of 20", "named-bool", "[]string of 12", "named-string", "named-int", "[]byte holding a version", "[]byte holding text", "*bool", "*named-bool", "*string", "[]string not in order", "[]interface{} with nil inside"}
 
 func mkOther(tag int) interface{} {
 	switch tag % len(otherNames) {
@@ -303,6 +305,23 @@ func mkOther(tag int) interface{} {
 		return namedString("abc")
 	case 21:
 		return namedInt(1)
+	case 22:
+		return []byte("1.2.3")
+	case 23:
+		return []byte("not a version")
+	case 24:
+		b := true
+		return &b
+	case 25:
+		b := namedBool(true)
+		return &b
+	case 26:
+		s := "abc"
+		return &s
+	case 27:
+		return []string{"writer", "Admin", "reader"}
+	case 28:
+		return []interface{}{"red", nil, "blue", nil}
 	default:
 		return uint(7)
 	}
@@ -342,6 +361,16 @@ func (a *AV) Go(shared map[*AV]interface{}) interface{} {
 		}
 		return strPanic{a.ID}
 	case AVOther:
+		if a.Strs != nil {
+			if a.Tag == 8 {
+				l := make([]interface{}, len(a.Strs))
+				for i, x := range a.Strs {
+					l[i] = x
+				}
+				return l
+			}
+			return append([]string(nil), a.Strs...)
+		}
 		return mkOther(a.Tag)
 	case AVObj:
 		if v, ok := shared[a]; ok {
